@@ -569,7 +569,7 @@ reg(Prop("C07", g_c07, {"cprio_table": "C07.a", "order_mc1": "C07.d", "raise": "
 P_C12 = gen.profile(**{**gen.GRAPH, "p_setup": 0.12, "p_debug": 0.08, "n_stmts": (2, 12), "p_tag": 0.35, "p_tag_is_id": 0.3,
                        "ret_types": [("int", 6), ("tuple2", 2), ("dict", 1), ("none", 1)], "p_index": 0.0, "p_keyed_return": 0.5})
 P_C13 = gen.profile(**{**gen.GRAPH, "p_debug": 0.35, "p_setup": 0.08, "n_stmts": (2, 10)})
-P_C11 = gen.profile(**{**gen.GRAPH, "p_setup": 0.4, "n_stmts": (2, 9), "p_tag": 0.15})
+P_C11 = gen.profile(**{**gen.GRAPH, "p_setup": 0.4, "n_stmts": (2, 9), "p_tag": 0.35, "p_reuse": 0.4})
 
 
 def g_c12(d: Draw) -> dict:
@@ -694,7 +694,7 @@ def g_c11(d: Draw) -> dict:
                            ("runexec", 3)])
         j = len(ops)
         if mode == "mkexec":
-            sel = draw_selection(d, spec, "main", p_R=0.1, p_X=0.25, p_T=0.7)
+            sel = draw_selection(d, spec, "main", p_R=0.1, p_X=0.25, p_T=0.7, p_tag=0.35)
             ops.append(dict(op="executor", inst=cur, sel=sel, ex=f"p{j}"))
             pending.append(f"p{j}")
             continue
@@ -705,17 +705,17 @@ def g_c11(d: Draw) -> dict:
         if mode == "call":
             ops.append(dict(op="call", inst=cur, args=draw_args(d, dg)))
         elif mode == "exec":
-            sel = draw_selection(d, spec, "main", p_R=0.15, p_X=0.3, p_T=0.8)
+            sel = draw_selection(d, spec, "main", p_R=0.15, p_X=0.3, p_T=0.8, p_tag=0.35)
             ops.append(dict(op="executor", inst=cur, sel=sel, ex=f"e{j}"))
             ops.append(dict(op="exrun", ex=f"e{j}", args=draw_args(d, dg)))
         elif mode == "exsetup":
-            sel = draw_selection(d, spec, "main", p_R=0.0, p_X=0.3, p_T=0.8)
+            sel = draw_selection(d, spec, "main", p_R=0.0, p_X=0.3, p_T=0.8, p_tag=0.35)
             ops.append(dict(op="executor", inst=cur, sel=sel, ex=f"e{j}"))
             ops.append(dict(op="exsetup", ex=f"e{j}"))
         elif mode == "setup":
             ops.append(dict(op="setup", inst=cur))
         elif mode == "setupsel":
-            sel = draw_selection(d, spec, "main", p_R=0.15, p_X=0.25, p_T=0.9)
+            sel = draw_selection(d, spec, "main", p_R=0.15, p_X=0.25, p_T=0.9, p_tag=0.35)
             ops.append(dict(op="setup", inst=cur, sel=sel))
         else:
             ncopy += 1
